@@ -328,6 +328,19 @@ func timeIntrinsics(I map[string]Intrinsic) {
 		}
 		return TupleV{m.mkTime(m.ctx.BV(uint64(t.UnixNano()), 64)), IfaceV{}}
 	}
+	// ParseInLocation: every location is UTC in the model (native replays run with TZ=UTC)
+	I["time.ParseInLocation"] = func(m *Machine, fn *ssa.Function, a []Value) Value {
+		layout, ok1 := concStr(a[0])
+		val, ok2 := concStr(a[1])
+		if !ok1 || !ok2 {
+			m.unsupported("time.ParseInLocation of a symbolic string")
+		}
+		t, err := time.ParseInLocation(layout, val, time.UTC)
+		if err != nil {
+			return TupleV{StructV{m.ctx.BV(0, 64), m.ctx.BV(0, 64), Ptr{}}, m.newError(err.Error(), nil)}
+		}
+		return TupleV{m.mkTime(m.ctx.BV(uint64(t.UnixNano()), 64)), IfaceV{}}
+	}
 	I["(time.Time).AppendFormat"] = func(m *Machine, fn *ssa.Function, a []Value) Value { return a[1] }
 	I["time.Now"] = func(m *Machine, fn *ssa.Function, a []Value) Value {
 		// only reachable from code whose result the properties do not depend on (last-access stamps, logs)
